@@ -120,7 +120,11 @@ pub fn run(cfg: &Config) -> i32 {
     };
     if let Some(c) = r.code {
         if c == 0 && cfg.prop == "C01" {
-            return c01_instruction_clock(cfg);
+            let c2 = c01_instruction_clock(cfg);
+            if c2 != 0 {
+                return c2;
+            }
+            return c01_flat_stack(cfg);
         }
         if c == 0 && cfg.prop == "C18" {
             return c18_decoder_stack(cfg);
@@ -185,6 +189,31 @@ fn c01_instruction_clock(cfg: &Config) -> i32 {
                 if let Some(cov) = j.get("coverage").cloned() {
                     let mut cov = cov;
                     cov.set("instruction_clock_scaling", frag);
+                    j.set("coverage", cov);
+                    if code == 1 {
+                        j.set("violations", J::int(1));
+                    }
+                    let _ = std::fs::write(&path, j.to_pretty());
+                }
+            }
+        }
+    }
+    code
+}
+
+/// C01's "never aborts" for flat inputs under a finite stack (see `c11::flat_grid`).
+fn c01_flat_stack(cfg: &Config) -> i32 {
+    if std::env::var_os("SIM_NO_SCALE").is_some() {
+        return 0;
+    }
+    let (code, frag) = crate::c11::flat_grid(cfg);
+    if cfg.write_evidence && frag != J::Null {
+        let path = format!("{}/evidence/{}.json", cfg.verif_dir, cfg.prop);
+        if let Ok(s) = std::fs::read_to_string(&path) {
+            if let Ok(mut j) = J::parse(&s) {
+                if let Some(cov) = j.get("coverage").cloned() {
+                    let mut cov = cov;
+                    cov.set("flat_input_stack_scenarios", frag);
                     j.set("coverage", cov);
                     if code == 1 {
                         j.set("violations", J::int(1));
